@@ -16,7 +16,7 @@ use std::process::{Command, Stdio};
 use std::sync::{Arc, Mutex, RwLock};
 use std::time::{Duration, Instant};
 
-pub const SCENARIOS: [&str; 8] = ["small", "sizes", "logs", "logs-nothread", "shutdown", "bgerr", "keeplogs", "errfull"];
+pub const SCENARIOS: [&str; 9] = ["small", "sizes", "logs", "logs-nothread", "shutdown", "bgerr", "keeplogs", "errfull", "exact"];
 
 #[derive(Clone, Debug)]
 struct Cfg {
@@ -39,7 +39,7 @@ fn gen_cfg(seed: u64, thorough: bool) -> Cfg {
 		14 => "keeplogs",
 		15 => "sizes",
 		16 => "errfull",
-		17 => "bgerr",
+		17 => "exact",
 		18..=19 => "shutdown",
 		_ => "small",
 	};
@@ -369,6 +369,41 @@ pub fn child_main(args: &[String]) -> i32 {
 			out.line("begin drop");
 			let t0 = Instant::now();
 			drop(Arc::try_unwrap(db).ok().unwrap());
+			out.line(&format!("drop {}", t0.elapsed().as_millis()));
+		},
+		"exact" => {
+			// The queue drains to EXACTLY the 16 MiB limit while a committer is throttled: c0 keeps
+			// the log worker busy, c1 + c2 = limit + 1032, popping c0 and c1 leaves exactly the
+			// limit, popping c2 leaves 0 (limit + 0 is not above the limit): the only pop that
+			// can wake the waiting c3 is the one that brings the queue to exactly the limit.
+			let limit: usize = 16 * 1024 * 1024;
+			let mut tx0 = vec![];
+			for j in 0..(60_000 + rng.below(40_000)) {
+				tx0.push((key_of(9, 0, j), Some((rng.range(8, 40) as usize, rng.next()))));
+			}
+			let tx1 = vec![(key_of(9, 1, 0), Some((1000usize, rng.next())))];
+			let tx2 = vec![(key_of(9, 2, 0), Some((limit - 32, rng.next())))];
+			let tx3 = vec![(key_of(9, 3, 0), Some((rng.range(1, 64) as usize, rng.next())))];
+			for (i, tx) in [tx0, tx1, tx2, tx3].iter().enumerate() {
+				out.line(&format!("begin commit 9 {} exact", i));
+				let t0 = Instant::now();
+				let res = do_commit(&db, tx);
+				if res.is_ok() {
+					record(&expect, tx);
+				}
+				out.line(&format!(
+					"commit 9 {} exact {} {}",
+					i,
+					t0.elapsed().as_millis(),
+					match &res {
+						Ok(()) => "ok".to_string(),
+						Err(e) => format!("err:{}", err_kind(e)),
+					}
+				));
+			}
+			out.line("begin drop");
+			let t0 = Instant::now();
+			drop(db);
 			out.line(&format!("drop {}", t0.elapsed().as_millis()));
 		},
 		"logs-nothread" => {
